@@ -467,8 +467,11 @@ theorem findLoop_eq_lookupFrom (e : Endian) (k : Nat) (t : Table) (ix : UnitInde
         exact ih (i + 1)
 
 /-- on an encoded table `UnitIndex::find` is the standard's lookup -/
+theorem find_zero (e : Endian) (ix : UnitIndex) : find e ix 0 = none := by
+  simp [find, findN]
+
 theorem find_eq_lookup (e : Endian) (k : Nat) (t : Table) (ix : UnitIndex)
-    (henc : Encodes e k t ix) (id : Nat) : find e ix id = lookup k id t := by
+    (henc : Encodes e k t ix) (id : Nat) (hid : id ≠ 0) : find e ix id = lookup k id t := by
   unfold find findN lookup
   have hpos : 0 < 2 ^ k := Nat.pow_pos (by decide)
   rw [if_neg (by rw [henc.slots]; omega)]
